@@ -743,6 +743,10 @@ def pred(case, out):
         main = rec["main"]
         # --- clauses that need no specification: partition, operands, forms, counterparts
         C1 = BY_PYNAME.get(main.get("cls"), C)
+        spre = ""
+        if op["k"] != "genotype" and is_terminal(C, op) and op.get("ax") in C["lkinds"]:
+            spre = "[sq-insert] " if (C["square"] and op["ax"] == "taxa" and op["k"] in ("insert", "incorp", "concat")) else "[scalar-insert] "
+        nb = len(bad)
         if "exc" not in main:
             for kk in C1["kinds"]:
                 m = KINDS[kk]["meta"]
@@ -757,6 +761,7 @@ def pred(case, out):
                         bad.append("%s: %s has %d labels for an axis of length %d" % (name, f, len(main[f]), main["shape"][min(kind_axes(C1, kk))]))
                     if main.get(f) is not None and any(isinstance(x, str) for x in main[f]):
                         bad.append("%s: %s holds foreign values %s" % (name, f, _short(main[f])))
+        bad[nb:] = [spre + b for b in bad[nb:]]
         if not follow:
             continue
         try:
@@ -962,6 +967,7 @@ class _Gen:
         kind = r.choice(kinds)
         k = r.choice(self.allowed(S, kind))
         valid = r.random() > 0.07
+        intended = valid
         form, gax = self.form(kind)
         op = {"k": k, "ax": kind, "form": form, "gax": gax}
         n = len(S["ents"][kind])
@@ -1001,10 +1007,11 @@ class _Gen:
         elif k in ("sort", "lexsort"):
             have = [f for f in KINDS[kind]["fields"] if S["lab"][f] is not None]
             if have and r.random() < 0.4:
-                op["keys"] = [r.choice(have) for _ in range(r.choice([1, 1, 2]))]
+                op["keys"] = [r.choice(have if r.random() < 0.85 else KINDS[kind]["fields"]) for _ in range(r.choice([1, 1, 2]))]
             else:
                 op["keys"] = None
                 if form == "s" and r.random() < 0.3: op["explicit_none"] = True
+        op["_valid"] = intended
         return op
 
 def rebase_like_impl(C, T, op):
@@ -1036,10 +1043,13 @@ def gen_history(rng, clsname, nops, tier):
     for i in range(nops):
         Cc = CLASSES[S["cls"]]
         op = None
-        for _ in range(8):
+        for _ in range(12):
             cand = G.one_op(S, last=(i == nops - 1))
             if cand is None: break
-            if is_terminal(Cc, cand) and i != nops - 1 and rng.random() < 0.85: continue
+            if cand["k"] != "genotype" and is_terminal(Cc, cand) and i != nops - 1 and rng.random() < 0.85: continue
+            if cand.pop("_valid", True):
+                try: spec_step(Cc, G.tab, S, cand)
+                except Invalid: continue
             op = cand; break
         if op is None: break
         if Cc.get("bv") and not S.get("unit", True): op["nocp"] = True     # in-place append/incorp ignore location/scale (C15's subject)
@@ -1092,3 +1102,99 @@ def describe(case, out):
          "idx_kinds": ",".join(sorted({o["obj"]["t"] for o in ops if "obj" in o})) or "-",
          "error_kind": next((r["main"]["exc"] for r in steps if "exc" in r["main"]), "none")}
     return d
+
+# ----------------------------------------------------------------------------------------------- Coq emission
+class EmitError(Exception):
+    pass
+def _zl(l):
+    return E.lst(l, E.z)
+def _tensor(nest, nd):
+    def chk(x):
+        if isinstance(x, list):
+            for y in x: chk(y)
+        elif not isinstance(x, int): raise EmitError("non-integer cell %r" % (x,))
+    chk(nest)
+    if nd == 1: return "(T1 %s)" % E.lst(nest, E.z)
+    if nd == 2: return "(T2 %s)" % E.lst2(nest, E.z)
+    if nd == 3: return "(T3 %s)" % E.lst3(nest, E.z)
+    raise EmitError("ndim %d" % nd)
+def _larr(codes):
+    if codes is None: return "None"
+    for c in codes:
+        if c is not None and (not isinstance(c, int) or c < 0): raise EmitError("label code %r" % (c,))
+    return "(Some (L %s))" % _zl([-1 if c is None else c for c in codes])
+def _ozl(l):
+    return "None" if l is None else "(Some %s)" % _zl(l)
+def _axes(C, st):
+    out = []
+    for k in C["lkinds"]:
+        labs = E.lst([st.get(f) for f in KINDS[k]["fields"]], _larr)
+        m = KINDS[k]["meta"]
+        meta = " ".join(_ozl(st.get(m + "_" + s)) if m else "None" for s in MSUF)
+        out.append("(mkax %s %s)" % (labs, meta))
+    return "[" + "; ".join(out) + "]"
+def _st(C, st):
+    return "(mkst %s %s %s)" % (E.lst(st["shape"], E.nat), _tensor(st["mat"], len(st["shape"])), _axes(C, st))
+def _obj(o):
+    t, v = o["t"], o["v"]
+    if t == "int": return "(OInt %s)" % E.z(v)
+    if t == "slice": return "(OSlice %s %s %s)" % tuple(E.opt(x, E.z) for x in v)
+    if t in ("list", "array"): return "(OList %s)" % _zl(v)
+    if t in ("mask", "lmask"): return "(OMask %s)" % E.lst(v, E.b)
+    raise EmitError(t)
+def _operand(C, tab, opd, kind):
+    st = spec_to_state(C, tab, opd)
+    kw = [st[f] if opd["pass"] == "kw" else None for f in KINDS[kind]["fields"]]
+    return "(mkopd %s %s %s %s %s)" % (E.lst(st["shape"], E.nat), _tensor(st["mat"], len(st["shape"])), _axes(C, st),
+                                        E.b(opd["pass"] == "mat"), E.lst(kw, _larr))
+def _hop(C, tab, op, prev):
+    k = op["k"]
+    if k == "genotype":
+        p = {"unphased": "GUnphased", "masked_phased": "(GMaskedPhased %s)" % E.b(op["invert"]),
+             "masked_unphased": "(GMaskedUnphased %s)" % E.b(op["invert"])}[op["prot"]]
+        return "(HGeno %s)" % p
+    kind = op["ax"]
+    form = "(Specific %s)" % E.nat(C["lkinds"].index(kind)) if op["form"] == "s" else "(Generic %s)" % E.z(op["gax"])
+    keys = lambda: "None" if op.get("keys") is None else "(Some %s)" % E.lst([prev.get(f) for f in op["keys"]], _larr)
+    if k == "lexsort": return "(HLex %s %s)" % (form, keys())
+    if k == "select": o = "(Select %s)" % _zl(op["idx"])
+    elif k == "reorder": o = "(Reorder %s)" % _zl(op["idx"])
+    elif k == "delete": o = "(Delete %s)" % _obj(op["obj"])
+    elif k == "remove": o = "(Remove %s)" % _obj(op["obj"])
+    elif k == "insert": o = "(Insert %s %s)" % (_obj(op["obj"]), _operand(C, tab, op["val"], kind))
+    elif k == "incorp": o = "(Incorp %s %s)" % (_obj(op["obj"]), _operand(C, tab, op["val"], kind))
+    elif k == "adjoin": o = "(Adjoin %s)" % _operand(C, tab, op["val"], kind)
+    elif k == "append": o = "(Append %s)" % _operand(C, tab, op["val"], kind)
+    elif k == "concat": o = "(Concat %s)" % E.lst(op["vals"], lambda m: _operand(C, tab, m, kind))
+    elif k == "sort": o = "(Sort %s)" % keys()
+    elif k == "group": o = "Group"
+    elif k == "ungroup": o = "Ungroup"
+    else: raise EmitError(k)
+    return "(HOp %s %s)" % (form, o)
+def _obs(C, rec):
+    m = rec["main"]
+    g = E.lst(m["gen_is_grouped"], lambda x: "(Some %s)" % E.b(x) if isinstance(x, bool) else "None")
+    ret = "None" if "ret" not in rec else "(Some %s)" % _zl(rec["ret"])
+    return "(%s, %s, %s)" % (_st(C, m), ret, g)
+
+def emit_case(case, out):
+    if "exc" in out:
+        return "false"
+    C = CLASSES[case["cls"]]; tab = case["tab"]
+    try:
+        init = _st(C, out["init"])
+        hops, obs = [], []
+        raised = False
+        Cc = C
+        prev = out["init"]
+        for op, rec in zip(case["ops"], out["steps"]):
+            hops.append(_hop(Cc, tab, op, prev))
+            if "exc" in rec["main"]:
+                raised = True; break
+            if op["k"] == "genotype":
+                Cc = CLASSES["DensePhasedGenotypeMatrix" if op["prot"] == "masked_phased" else "DenseGenotypeMatrix"]
+            obs.append(_obs(Cc, rec))
+            prev = rec["main"]
+    except EmitError:
+        return "false"
+    return "(agree c%s %s\n  [%s]\n  [%s] %s)" % (case["cls"], init, ";\n   ".join(hops), ";\n   ".join(obs), E.b(raised))
